@@ -26,9 +26,15 @@ def _case(draw):
     variant = draw(st.sampled_from(['tcp', 'tcp', 'rtu']))
     ops = []
     for _ in range(draw(st.integers(1, 25))):
-        o = draw(st.sampled_from(['req', 'req', 'req', 'reply', 'reply', 'coalesce', 'split', 'unsolicited', 'dup', 'lose']))
+        o = draw(st.sampled_from(['req', 'req', 'req', 'reply', 'reply', 'coalesce', 'split', 'unsolicited', 'dup', 'lose', 'stray+reply', 'req-retry']))
         if o == 'req':
             ops.append(['req', draw(st.integers(1, 247)), draw(st.integers(1, 6))])
+        elif o == 'req-retry':
+            # a request whose failure handler immediately issues a new request (retry-on-failure application code)
+            ops.append(['req', draw(st.integers(1, 247)), draw(st.integers(1, 6)), 'reissue-on-failure'])
+        elif o == 'stray+reply':
+            # an unsolicited / duplicate reply in the same read as (in front of) a genuine reply, whole or partial
+            ops.append(['stray+reply', draw(st.integers(0, 9)), draw(st.sampled_from(['whole', 'partial'])), draw(st.integers(1, 12))])
         elif o == 'reply':
             ops.append(['reply', draw(st.integers(0, 9))])
         elif o == 'coalesce':
@@ -73,14 +79,15 @@ def run_case(case):
     proto.transaction.tid = case['tid_start']
     reqs = []          # dict(idx, tid, unit, count, fired=[...], failed=[...], answered, frame)
     lost = False
+    lost_flag = [False]
     nt = False
     sent_len = [0]
 
-    def issue(unit, count):
+    def issue(unit, count, reissue=False):
         idx = len(reqs)
-        r = {'idx': idx, 'unit': unit, 'count': count, 'fired': [], 'failed': [], 'delivered': 0, 'after_loss': lost}
+        r = {'idx': idx, 'unit': unit, 'count': count, 'fired': [], 'failed': [], 'delivered': 0, 'after_loss': lost_flag[0]}
         d = proto.execute(ReadHoldingRegistersRequest(idx & 0xFFFF, count, unit=unit))
-        d.addCallbacks(lambda rsp, r=r: r['fired'].append(rsp), lambda f, r=r: r['failed'].append(f))
+
         data = tr.value()[sent_len[0]:]
         sent_len[0] = len(tr.value())
         try:
@@ -89,9 +96,18 @@ def run_case(case):
         except refframe.FrameError as e:
             r['tid'] = None
             discs.append(Disc('request-frame', 'request %d: written bytes %s are not one frame: %s' % (idx, data.hex()[:60], e)))
+        def on_fail(f, r=r):
+            r['failed'].append(f)
+            if reissue and not r.get('reissued'):
+                r['reissued'] = True
+                child = issue(unit, count)          # application code retrying from inside the errback
+                child['lost'] = False
+                child['after_loss'] = True            # the connection is already lost when this runs
+                r['child'] = child
         r['regs'] = [(idx * 11 + i + 1) & 0xFFFF for i in range(count)]
         r['frame'] = refframe.build(framing, unit, specpdu.encode('rsp:3', {'registers': r['regs']}), r['tid'] or 0, 0)
         reqs.append(r)
+        d.addCallbacks(lambda rsp, r=r: r['fired'].append(rsp), on_fail)      # may run on_fail at once (and recurse) when already lost
         return r
 
     def pending():
@@ -139,7 +155,7 @@ def run_case(case):
             if discs:
                 break
             if op[0] == 'req':
-                r = issue(op[1], op[2])
+                r = issue(op[1], op[2], reissue=(len(op) > 3))
                 r['lost'] = False
                 if lost:
                     labels.append('issue-after-loss')
@@ -155,6 +171,7 @@ def run_case(case):
             pend = pending()
             if op[0] == 'lose':
                 lost = True
+                lost_flag[0] = True
                 if pend:
                     nt = True
                     labels.append('loss-with-pending')
@@ -164,6 +181,13 @@ def run_case(case):
                     if not (len(x['failed']) == 1 and x['failed'][0].check(ConnectionException) and not x['fired']):
                         discs.append(Disc('pending-not-failed-on-loss', 'request %d pending at connection loss: fired %d times, failed %r' % (x['idx'], len(x['fired']), x['failed'])))
                         break
+                    ch = x.get('child')
+                    if ch is not None:
+                        labels.append('reissue-inside-errback')
+                        if not (len(ch['failed']) == 1 and ch['failed'][0].check(ConnectionException) and not ch['fired']):
+                            discs.append(Disc('request-after-loss-did-not-fail', 'request %d, issued from the errback of request %d while the connection was being lost, did not fail: fired %r failed %r' % (
+                                ch['idx'], x['idx'], ch['fired'], ch['failed'])))
+                            break
                 continue
             if op[0] in ('reply', 'split', 'coalesce'):
                 if not pend:
@@ -207,6 +231,30 @@ def run_case(case):
                             variant, x['idx'], x['tid'], x['unit'], op[0], len(x['fired']), [getattr(f, 'registers', f) for f in x['fired']], x['failed'])))
                 continue
             if framing != 'tcp':
+                continue
+            if op[0] == 'stray+reply':
+                if not pend:
+                    continue
+                x = pend[op[1] % len(pend)]
+                used = set(y['tid'] for y in pend)
+                tid = (op[1] * 7919 + 77) & 0xFFFF
+                while tid in used:
+                    tid = (tid + 1) & 0xFFFF
+                stray = refframe.build('tcp', 1, specpdu.encode('rsp:3', {'registers': [0xDEAD]}), tid, 0)
+                fr = x['frame']
+                if op[2] == 'whole':
+                    feed(stray + fr, 'stray reply followed by a genuine reply in one read')
+                else:
+                    cut = max(1, min(len(fr) - 1, op[3]))
+                    feed(stray + fr[:cut], 'stray reply followed by the start of a genuine reply')
+                    feed(fr[cut:], 'rest of the genuine reply')
+                labels.append('stray-in-front-of-reply')
+                nt = True
+                x['delivered'] += 1
+                ok = len(x['fired']) == 1 and not x['failed'] and list(getattr(x['fired'][0], 'registers', [])) == x['regs']
+                if not ok and not discs:
+                    discs.append(Disc('reply-not-matched', 'tcp request %d (tid %r): its reply arrived right behind an unsolicited reply (%s) and the deferred fired %d times' % (
+                        x['idx'], x['tid'], op[2], len(x['fired']))))
                 continue
             before = [(len(x['fired']), len(x['failed'])) for x in reqs]
             if op[0] == 'unsolicited':
